@@ -1416,6 +1416,12 @@ def _per_element_keep(self, rule, body, make_guard, descr):
     prep(body)
     ta = Taint(body, through="all")
     for kb in [b for b in body.blocks if b["term"]["k"] == "call" and not b["cleanup"] and callee_matches(b["term"], PER_ELEMENT_KEEPERS)]:
+        # `.filter(Transaction::verify)`: the predicate handed over *is* the guard function — its verdict is the guard's by definition
+        gd0 = make_guard("closure")
+        if isinstance(gd0, CallGuard) and tuple(gd0.steps) == ("true",) and any(a and a[0] == "f" and pat_match(norm(a[1]), gd0.pats) for a in kb["term"]["args"]) \
+                and "retain" not in (kb["term"]["ncallee"] or ""):
+            self.inst(rule, "K4 gate", descr + " (the predicate is the guard function itself)", 1, True)
+            return "closure", {kb["term"]["d"][0]}
         for cl in closures_passed(F, body, kb["term"]):
             prep(cl)
             gd = make_guard("closure")
